@@ -92,9 +92,30 @@ Theorem trim_then_reopen_refuted :
   Good f1_src f1_cfg f1_w0 /\
   fst (preadv2 f1_src f1_cfg false false f1_w2 6 1) = 0 /\
   Z.max 0 (Z.min 1 (zlen f1_src - 6)) = 1 /\
-  ~ MediaSizeOK f1_src f1_cfg (w_st (evict f1_w0 5 (-1))).
+  ~ MediaSizeOK f1_src f1_cfg (w_st (evict f1_cfg f1_w0 5 (-1))).
 Proof. exact trim_then_reopen_refuted_proof. Qed.
 Print Assumptions trim_then_reopen_refuted.
+
+(* FINDING C17-F2: with the unpatched FileCacheStore::evict (c_tne = false) a trim beyond the media
+   file's end EXTENDS the media file past the source size; after the store is re-created a read
+   of [8,12) of the 10-byte source fails although no source call fails (on a real file system the
+   zero extension is served as cached data).  The patched evict leaves the store untouched. *)
+Theorem trim_beyond_eof_refuted :
+  Good f1_src f1_cfg f1_w0 /\
+  fst (preadv2 f1_src f1_cfg false false f2_w2 8 4) = -1 /\
+  Z.max 0 (Z.min 4 (zlen f1_src - 8)) = 2 /\
+  ~ MediaSizeOK f1_src f1_cfg (w_st (evict f1_cfg f1_w0 12 (-1))) /\
+  evict f1_cfg_patched f1_w0 12 (-1) = f1_w0.
+Proof. exact trim_beyond_eof_refuted_proof. Qed.
+Print Assumptions trim_beyond_eof_refuted.
+
+(* with both repairs (trim offsets rounded to a page boundary by CachedFile::fallocate; evict never
+   extends the file) a trim keeps the media size sound for a later store (Example ex_media_size_ok) *)
+Theorem trim_keeps_media_size : forall src cfg w off,
+  c_tne cfg = true -> MediaSizeOK src cfg (w_st w) -> 0 <= off -> off mod c_page cfg = 0 ->
+  MediaSizeOK src cfg (w_st (evict cfg w off (-1))).
+Proof. exact trim_keeps_media_size_proof. Qed.
+Print Assumptions trim_keeps_media_size.
 
 (* ---- the interleaving model (C17_Conc.v): any number of readers, inline and asynchronous
    write-back, whole-file eviction under the exclusive rw lock, range-lock dedup, reuse of the
@@ -138,3 +159,12 @@ Theorem refill_dedup : forall (src : C17_Conc.bytes) (s : C17_Conc.state) (t t' 
   C17_Conc.holds_range (C17_Conc.pcs s t) = Some (a, b) -> C17_Conc.holds_range (C17_Conc.pcs s t') = Some (a', b') -> b <= a' \/ b' <= a.
 Proof. exact C17_Conc.refill_dedup_proof. Qed.
 Print Assumptions refill_dedup.
+
+(* COUNTERFACTUAL (non-vacuity of read_atomic_vs_evict): in the model weakened by an eviction that
+   does not need the exclusive lock (`ustep` = `step` + unguarded evict) a read returns a byte that
+   is not the source's: the eviction lands between the hole query and the media read. *)
+Theorem unlocked_evict_refuted :
+  exists s u, C17_Conc.ureachable C17_Conc.ex_src s /\ C17_Conc.pcs s 0%nat = C17_Conc.RDone 0 4 u
+              /\ u 1 <> Some (C17_Conc.ex_src 1).
+Proof. exact C17_Conc.unlocked_evict_refuted_proof. Qed.
+Print Assumptions unlocked_evict_refuted.
